@@ -30,6 +30,7 @@ var gvcAPIScenarios = []gvcAPIScenario{
 	{"no-match-crlf", "@@\n@@\n-nosuch()\n+other()\n", "package a\r\n\r\nvar x = 1\r\n", false},
 	{"rename", "@@\n@@\n-foo(...)\n+bar(...)\n", "package a\n\nfunc g() { foo(1, 2) }\n", true},
 	{"failing-replace-plus-match", "@@\nvar x expression\n@@\n-foo()\n+bar(x)\n\n@@\n@@\n-baz()\n+qux()\n", "package a\n\nfunc g() { foo(); baz() }\n", true},
+	{"plus-line-before-minus-line-single-elision", "@@\n@@\n+bar(...)\n-foo(...)\n", "package a\n\nfunc g() { foo(1, 2) }\n", true},
 	{"elision-both-sides", "@@\n@@\n func f() {\n   ...\n-  foo()\n+  bar()\n+  baz()\n   ...\n }\n", "package a\n\nfunc f() {\n\ta()\n\tfoo()\n\tb()\n\tc()\n}\n", true},
 }
 
@@ -87,6 +88,10 @@ func TestGvcReplay(t *testing.T) {
 		case "C06":
 			if !sc.matches && (r.err != nil || !bytes.Equal(r.out, []byte(sc.src))) {
 				report(sc, fmt.Sprintf("no change applies but Apply returned (%q, %v) instead of the input bytes", r.out, r.err))
+			}
+		case "C04":
+			if sc.name == "plus-line-before-minus-line-single-elision" && r.err == nil && !bytes.Contains(r.out, []byte("bar(1, 2)")) {
+				report(sc, fmt.Sprintf("the only elision on each side did not reproduce the elided arguments: Apply returned %q without error", r.out))
 			}
 		case "C09", "C16":
 			if sc.name == "failing-replace-plus-match" && (r.err == nil || r.out != nil) {
